@@ -72,7 +72,7 @@ func (e *Eng) actDeviceDecide() {
 		}
 	}
 	subject := fmt.Sprintf("user-%d", d.G.N)
-	ok := e.w.DeviceDecide(d.UserCode, accept, h.Consent{Session: h.NewSess(subject), Scopes: append([]string{}, granted...)})
+	ok := e.w.DeviceDecide(d.UserCode, accept, h.Consent{Session: e.w.Sess(subject), Scopes: append([]string{}, granted...)})
 	e.step(fmt.Sprintf("deviceDecide:%v", accept))
 	exp := e.timeExpired(d)
 	e.logf("deviceDecide %v accept=%v granted=%q -> found=%v (expiry state %v)", d, accept, granted, ok, exp)
@@ -213,6 +213,11 @@ func (e *Eng) actPARPush() {
 	if len(scopes) > 0 {
 		form.Set("scope", strings.Join(scopes, " "))
 	}
+	if !fosite.Arguments(scopes).Has("openid") && rapid.IntRange(0, 2).Draw(t, "omitRedirect") == 0 {
+		// the client has exactly one registered redirect URI: it may be omitted from the push
+		form.Del("redirect_uri")
+		e.label("par-push-without-redirect_uri")
+	}
 	res := e.w.PAR(form, e.auth(client))
 	e.step("parPush")
 	if !res.Err.OK() || res.RequestURI == "" {
@@ -270,7 +275,7 @@ func (e *Eng) actPARUse() {
 		e.label("par-use-with-conflicting-query")
 	}
 	subject := fmt.Sprintf("user-%d", g.N)
-	res := e.w.Authorize(q, h.Consent{Session: h.NewSess(subject)})
+	res := e.w.Authorize(q, h.Consent{Session: e.w.Sess(subject)})
 	e.step("parUse:" + strings.Join(reasons, "+"))
 	e.logf("parUse %v by=%s conflict=%v reasons=%v -> %v code=%v", p, presenter, conflict, reasons, res.Err, res.Code != "")
 	has := func(x string) bool {
